@@ -13,14 +13,16 @@ from ..model import AnalysisError, attr_chain, norm
 
 EXPLANATION = (
     "Static table extraction (no execution): the if/elif/early-return dispatch of Length.__iadd__, __truediv__, value, "
-    "in_pixels, in_inches, __float__, to_mm/to_cm/to_inch is read cell by cell over the finite unit domain "
-    "(14 units, 196 ordered pairs, zero/non-zero amount flags) and each cell's arithmetic, canonicalised to an exact "
-    "rational function of the amounts, is compared with the CSS absolute-unit ratios (px=1, pt=4/3, pc=16, in=ppi, "
-    "cm=in/2.54, mm=in/25.4; relative tolerance 2e-6 because the module's own constants carry six digits). Also "
-    "decided: each context-dependent unit returns the symbolic length when its context is missing (R12.2), no min/max "
-    "call has syntactically identical arguments (R12.3), ordering operators test the sign of (self-other).amount with "
-    "the matching comparison and subtraction/negation are built from addition (R12.4), __eq__ compares like with like "
-    "(R12.5). Not decided: float rounding of the results, string parsing of amounts (regex), Length.__imul__."
+    "in_pixels, in_inches, __float__, to_mm/to_cm/to_inch is read cell by cell over the finite unit domain (14 units, 196 "
+    "ordered pairs, zero/non-zero amount flags) and each cell's arithmetic, canonicalised to an exact rational function of "
+    "the amounts, is compared with the CSS absolute-unit ratios (px=1, pt=4/3, pc=16, in=ppi, cm=in/2.54, mm=in/25.4; "
+    "relative tolerance 2e-6 because the module's own constants carry six digits). Also decided: each context-dependent "
+    "unit returns the symbolic length when its context is missing - also when the viewBox it is given is incomplete "
+    "(width/height unset) - while a reference of zero is a reference: x% of 0 is 0 (R12.2; truthiness tests of the "
+    "reference are decided as None / zero / non-zero), no min/max call has syntactically identical arguments (R12.3), "
+    "ordering operators test the sign of (self-other).amount with the matching comparison and subtraction/negation are "
+    "built from addition (R12.4), __eq__ compares like with like (R12.5). Not decided: float rounding of the results, "
+    "string parsing of amounts (regex), Length.__imul__."
 )
 TECHNIQUE = (
     "static analysis (no execution): dispatch-table extraction of every (operator, unit, unit) cell with exact rational unit ratios compared with the CSS absolute-unit table; equality table"
@@ -31,7 +33,7 @@ ASSUMPTIONS = [
     "Float rounding is not modelled; the verdict is about the implemented formula, not floating-point results.",
 ]
 EXHAUSTIVE = True
-FLOORS = {"R12.1": 400, "R12.2": 9, "R12.3": 1, "R12.4": 7, "R12.5": 200}
+FLOORS = {"R12.1": 400, "R12.2": 14, "R12.3": 1, "R12.4": 7, "R12.5": 200}
 
 PX = {"": Fraction(1), "px": Fraction(1), "pt": Fraction(4, 3), "pc": Fraction(16)}
 INCH = {"in": Fraction(1), "cm": Fraction(100, 254), "mm": Fraction(10, 254)}
@@ -214,8 +216,14 @@ CONTEXT = {
 }
 
 
+def _viewbox_locals(fn):
+    return {s.targets[0].id for s in ast.walk(fn) if isinstance(s, ast.Assign) and isinstance(s.value, ast.Call) and isinstance(s.value.func, ast.Name) and s.value.func.id == "Viewbox"
+            and len(s.targets) == 1 and isinstance(s.targets[0], ast.Name)}
+
+
 def value_table(ctx):
     fn = ctx.fn("Length.value", "R12.1")
+    vbl = _viewbox_locals(fn)
     params = ["ppi", "relative_length", "font_size", "font_height", "viewbox"]
     have = [a.arg for a in fn.args.args]
     for p in params:
@@ -224,8 +232,10 @@ def value_table(ctx):
     for su in UNITS:
         ctxparam, ref_text = CONTEXT[su]
         cons = "Length.value[%s]" % (su or "''")
-        facts, alg = _mk(su, extra_null={p: False for p in params})
+        complete = {"%s.%s" % (v, d): False for v in vbl for d in ("width", "height", "x", "y")}  # a complete viewBox: all four numbers present
+        facts, alg = _mk(su, extra_null=dict({p: False for p in params}, **complete))
         facts.types["relative_length"] = "float"
+        facts.zeros.update({p: False for p in params})
         vb_names = set()
 
         def hook(a, node, vb_names=vb_names):
@@ -247,8 +257,9 @@ def value_table(ctx):
         alg.atom_map.update({k: v for k, v in amap.items() if k not in alg.atom_map})
         # re-evaluate local temporaries (m = min(v.height, v.height)) under the renaming
         alg2 = Alg(atom_map=dict(amap))
-        facts2, _ = _mk(su, extra_null={p: False for p in params})
+        facts2, _ = _mk(su, extra_null=dict({p: False for p in params}, **complete))
         facts2.types["relative_length"] = "float"
+        facts2.zeros.update({p: False for p in params})
         out = walk(fn.body, facts2, alg2, ctx.m, "R12.1", cons)
         try:
             got = alg2.ev(out.node)
@@ -260,14 +271,47 @@ def value_table(ctx):
         if ctxparam is not None:
             cons2 = "Length.value[%s,%s=None]" % (su, ctxparam)
             nulls = {p: (p == ctxparam) for p in params}
+            nulls.update(complete)
             facts3, alg3 = _mk(su, extra_null=nulls)
             facts3.types["relative_length"] = "float"
+            facts3.zeros.update({p: False for p in params if p != ctxparam})
             out3 = walk(fn.body, facts3, alg3, ctx.m, "R12.2", cons2)
             ok = out3.kind == "return" and isinstance(out3.node, ast.Name) and out3.node.id == "self"
             ctx.ob("R12.2", cons2, ok, "returns %s" % (ast.unparse(out3.node) if out3.node is not None else out3.kind),
                    out3.stmt.lineno if out3.stmt is not None else fn.lineno,
                    "a length whose context is missing must stay symbolic (return the length itself)")
 
+    # an incomplete viewBox (fewer than four numbers) leaves its width/height unset: viewport units stay symbolic
+    for su in ("vw", "vh", "vmin", "vmax"):
+        cons5 = "Length.value[%s,viewBox incomplete]" % su
+        nulls5 = {p: False for p in params}
+        nulls5.update({"%s.%s" % (v, d): True for v in vbl for d in ("width", "height", "x", "y")})
+        facts5, alg5 = _mk(su, extra_null=nulls5)
+        facts5.zeros.update({p: False for p in params})
+        try:
+            out5 = walk(fn.body, facts5, alg5, ctx.m, "R12.2", cons5)
+            ok5 = out5.kind == "return" and isinstance(out5.node, ast.Name) and out5.node.id == "self"
+            detail5 = "returns %s" % (ast.unparse(out5.node) if out5.node is not None else out5.kind)
+            line5 = out5.stmt.lineno if out5.stmt is not None else fn.lineno
+        except AnalysisError:
+            raise
+        ctx.ob("R12.2", cons5, ok5, detail5, line5, "a viewport unit cannot be resolved against a viewBox whose size is missing: it must stay symbolic, not multiply by None")
+    # a reference of zero is a reference: x% of 0 is 0, not an unresolved length
+    cons4 = "Length.value[%,relative_length=0]"
+    facts4, alg4 = _mk("%", extra_null={p: False for p in params})
+    facts4.types["relative_length"] = "float"
+    facts4.zeros.update({p: (p == "relative_length") for p in params})
+    alg4.atom_map["relative_length"] = const(0)
+    out4 = walk(fn.body, facts4, alg4, ctx.m, "R12.2", cons4)
+    ok = False
+    if out4.kind == "return" and out4.node is not None:
+        try:
+            ok = alg4.ev(out4.node).is_zero()
+        except Uninterpreted:
+            ok = False
+    ctx.ob("R12.2", cons4, ok, "returns %s" % (ast.unparse(out4.node) if out4.node is not None else out4.kind),
+           out4.stmt.lineno if out4.stmt is not None else fn.lineno,
+           "a percentage of a zero reference is zero; treating a supplied zero as a missing context leaves the length unresolved")
 
 def to_units(ctx):
     for qual, k in (("Length.to_mm", Fraction(10, 254)), ("Length.to_cm", Fraction(100, 254)), ("Length.to_inch", Fraction(1))):
